@@ -30,7 +30,8 @@ def rw(t):
 def loop_of(fx, rep, rule, key, path):
     rep.fn(path)
     b = fx.bodies[path]
-    sy = S.Sym(fx)
+    nxt = set(A.method(fx, "mapping::ProguardRecordIter", "next", trait="Iterator"))
+    sy = S.Sym(fx, inline_mut=True, opaque=lambda q: q in nxt)      # (private `&mut self` helpers of the fold are inlined; the record iterator is not)
     try:
         res = sy.eval_body(b)
     except S.Undecidable as e:
@@ -54,6 +55,11 @@ def iter_term(slf):
     return ("adt", "ProguardRecordIter", "ProguardRecordIter", (("slice", mk_field(slf, "source")),))
 
 
+def pname(pl):
+    """role name of a place: `x` or `x.field` (an accumulator struct's fields are separate roles)"""
+    return pl[1] if not pl[2] else pl[1] + "." + ".".join(pl[2])
+
+
 def norm_eff(st):
     out = []
     for e in st.effects:
@@ -61,14 +67,14 @@ def norm_eff(st):
         if e[0] == "call" and R.is_next(e[1]):
             continue
         if e[0] == "opassign":
-            out.append(("inc", e[2][1]) if (e[1] == "Add" and e[3] == lit_int(1) and e[2][0] == "place") else ("other", e))
+            out.append(("inc", pname(e[2])) if (e[1] == "Add" and e[3] == lit_int(1) and e[2][0] == "place") else ("other", e))
         elif e[0] == "assign" and e[1][0] == "place":
             import builders as B_
             t = e[2]
             if t[0] == "lin" and t[2] == 1 and len(t[1]) == 1 and t[1][0][1] == 1 and B_.is_old_value(t[1][0][0], e[1]):
-                out.append(("inc", e[1][1]))
+                out.append(("inc", pname(e[1])))
             else:
-                out.append(("assign", e[1][1], e[2]))
+                out.append(("assign", pname(e[1]), e[2]))
         else:
             out.append(("other", e))
     return tuple(out)
@@ -147,6 +153,65 @@ def quantifier_form(fx, rep, p, slf):
     return True
 
 
+def pred_equals(cases_term, ref):
+    x = ("bound", 0)
+    cases = cases_term[1] if cases_term[0] == "cases" else (((), (), cases_term),)
+    if any(c[1] for c in cases):
+        return False
+    paths = [(_P(c[0], c[1]), (S.VAL, c[2])) for c in cases]
+    bad, n = fc.compare_paths(paths, ref, lambda st, out: out[1])
+    return not bad
+
+
+def chained_any_form(fx, rep, p, slf):
+    """is_valid written as `let mut it = self.iter().take(50); it.any(is Ok(Class)) && it.any(is Ok(Field|Method))`: `any`
+    stops right after its first match, so the second `any` scans exactly the items after the first class record, inside
+    the same 50-item window - the same answer as the flag loop. Returns True when the body has this form."""
+    b = fx.bodies[p]
+    sy = S.Sym(fx)
+    try:
+        res = sy.eval_body(b)
+    except S.Undecidable:
+        return False
+    if sy.loop_order or not res:
+        return False
+    quants = []
+
+    def g(t):
+        if t[0] == "quant":
+            if t not in quants:
+                quants.append(t)
+        return None
+    for st, o in res:
+        for a_, p_ in st.conds:
+            fc.rewrite(a_, g)
+        fc.rewrite(o[1], g)
+    if len(quants) != 2 or any(st.effects for st, o in res):
+        return False
+    window = ("call", "std::iter::Iterator::take", (iter_term(slf), lit_int(50)))
+    q1 = [q for q in quants if q[2] == window]
+    q2 = [q for q in quants if q[2] == ("exhausted", window)]
+    if len(q1) != 1 or len(q2) != 1 or q1[0][1] != "any" or q2[0][1] != "any":
+        return False
+    rep.fn(p)
+    x = ("bound", 0)
+    okx = mk_payload(x, "Ok", "0")
+    p1 = pred_equals(q1[0][3], lambda o: TRUE if (o(("is", x, "Ok")) and o(("is", okx, "Class"))) else FALSE)
+    p2 = pred_equals(q2[0][3], lambda o: TRUE if (o(("is", x, "Ok")) and (o(("is", okx, "Field")) or o(("is", okx, "Method")))) else FALSE)
+    A1, A2 = ("bool", q1[0]), ("bool", q2[0])
+
+    def ref(o):
+        return TRUE if (o(A1) and o(A2)) else FALSE
+    bad, n = fc.compare_paths(res, ref, lambda st, out: out[1])
+    rep.check("C19.3", "C19.3/is_valid/per-record", p1 and p2 and not bad, loc=F.short_file(b["sp"]),
+              found="any(Ok(Class)) then any(Ok(Field|Method)) on the same iterator: first predicate %s, second predicate %s, conjunction %s" % (p1, p2, not bad),
+              expected="a class record followed by a field or method record")
+    rep.ok("C19.3", "C19.3/is_valid/driver", loc=F.short_file(b["sp"]), found="both scans share %s" % S.tstr(window), nontrivial=False)
+    rep.ok("C19.3", "C19.3/is_valid/after-loop", loc=F.short_file(b["sp"]), found="false when either scan exhausts the 50-item window", nontrivial=False)
+    rep.ok("C19.3", "C19.3/is_valid/flag-init", loc=F.short_file(b["sp"]), found="no flag: the first any() is the flag", nontrivial=False)
+    return True
+
+
 def run(ctx, rep):
     fx = ctx.facts("")
     rep.configs.append("default")
@@ -182,11 +247,17 @@ def run(ctx, rep):
             # roles from the result wiring
             roles = {}
             okw = len(res) == 1 and res[0][1][1][0] == "adt" and res[0][1][1][1] == "MappingSummary"
+            want_fields = ["compiler", "compiler_version", "min_api", "class_count", "method_count"]
+            acc_struct = None
             if okw:
                 for fn, fv in res[0][1][1][3]:
                     if fv[0] == "loop" and fv[2] == idx:
                         roles[fn] = fv[1]
-            want_fields = ["compiler", "compiler_version", "min_api", "class_count", "method_count"]
+            elif len(res) == 1 and res[0][1][1][0] == "loop" and res[0][1][1][2] == idx and "MappingSummary" in (b.get("output") or ""):
+                # one accumulator of the result type itself, updated field by field and returned
+                acc_struct = res[0][1][1][1]
+                roles = {fn: "%s.%s" % (acc_struct, fn) for fn in want_fields}
+                okw = True
             rep.check("C19.2", "C19.2/summary/wiring", okw and sorted(roles) == sorted(want_fields) and len(set(roles.values())) == 5,
                       loc=F.short_file(b["sp"]), found=S.tstr(res[0][1][1]) if res else "-",
                       expected="MappingSummary fields wired one-to-one from five loop accumulators")
@@ -236,11 +307,22 @@ def run(ctx, rep):
                         for s_ in n["stmts"]:
                             if s_["k"] == "Let" and s_["pat"]["k"] == "Bind" and s_["pat"]["name"] in roles.values() and s_.get("init"):
                                 inits[s_["pat"]["name"]] = F.pp(s_["init"])
+                if acc_struct is not None:
+                    for n in F.walk(b["body"]):
+                        if n.get("k") == "Block":
+                            for s_ in n["stmts"]:
+                                if s_["k"] == "Let" and s_["pat"]["k"] == "Bind" and s_["pat"]["name"] == acc_struct and s_.get("init"):
+                                    i_ = F.strip(s_["init"])
+                                    if i_.get("k") == "Adt" and not i_.get("base"):
+                                        for f_ in i_["fields"]:
+                                            inits["%s.%s" % (acc_struct, f_["name"])] = F.pp(f_["e"])
                 good = all(inits.get(roles[f]) == "Option::None{}" for f in ("compiler", "compiler_version", "min_api")) and \
                     all(inits.get(roles[f]) == "0" for f in ("class_count", "method_count"))
                 rep.check("C19.2", "C19.2/summary/initial-values", good, loc=F.short_file(b["sp"]), found=str(inits), expected="None / None / None / 0 / 0", nontrivial=False)
     # ---- is_valid
     p = A.one(rep, "C19.3", "ProguardMapping::is_valid", A.method(fx, "mapping::ProguardMapping", "is_valid"))
+    if p and chained_any_form(fx, rep, p, slf):
+        p = None
     if p:
         r = loop_of(fx, rep, "C19.3", "C19.3/is_valid", p)
         if r:
